@@ -864,21 +864,19 @@ def sort_nested_dict_by_keys(d, ascending=True, return_values=True):
 		List of values or keys of ``d``, sorted in order of keys of ``d``.
 
 	"""
-	# Replace nested dict with one in which the first two levels are replaced by a tuple.
-	# Also replace any None keys with -inf so they will always be sorted first (if ascending order).
-	flattened_dict = {(key1 if key1 is not None else float('-inf'), key2 if key2 is not None else float('-inf')): \
-							d[key1][key2] for key1 in d.keys() for key2 in d[key1].keys()}
+	# Replace nested dict with a list in which the first two levels of keys are replaced by a tuple.
+	flattened_items = [((key1, key2), d[key1][key2]) for key1 in d.keys() for key2 in d[key1].keys()]
+
+	# Sort by keys; None keys are always sorted first (if ascending order), whatever the type of the other keys.
+	sorted_items = sorted(flattened_items, key=lambda item: tuple((k is not None, 0 if k is None else k) for k in item[0]),
+						  reverse=not ascending)
 
 	if return_values:
-		# Build sorted list of values (sorted by keys) in flattened_dict.
-		return_list = [value for _, value in sorted(flattened_dict.items(), reverse=not ascending)]
+		# Build sorted list of values (sorted by keys).
+		return_list = [value for _, value in sorted_items]
 	else:
-		# Build sorted list of keys in flattened_dict.
-		return_list = [key for key, _ in sorted(flattened_dict.items(), reverse=not ascending)]
-
-		# Replace -inf with None.
-		return_list = [(None if key1 == -float('inf') else key1, None if key2 == -float('inf') else key2) \
-						for key1, key2 in return_list]
+		# Build sorted list of keys.
+		return_list = [key for key, _ in sorted_items]
 
 	return return_list
 
